@@ -112,7 +112,18 @@ func (c *Config) parseBuffer(buf *bufio.Reader) error {
 			}
 		}
 		lineNum++
-		line, _, err := buf.ReadLine()
+		line, isPrefix, err := buf.ReadLine()
+		for isPrefix && err == nil {
+			// the line is longer than the reader's buffer: keep reading until its end
+			var more []byte
+			line = append([]byte(nil), line...)
+			more, isPrefix, err = buf.ReadLine()
+			if err == io.EOF {
+				// the long line is the last one and has no line terminator
+				isPrefix, err = false, nil
+			}
+			line = append(line, more...)
+		}
 		if err == io.EOF {
 			// force write when buffer is not flushed yet
 			if buffer.Len() > 0 {
